@@ -127,3 +127,49 @@ def error_map(config, unit, body):
 
 def expected_error(vn):
     return {"Err(DataOutOfRange)"} if vn in ("Overflow", "Underflow") else {"Err(InvalidCharacterInNumber)"} if vn == "InvalidDigit" else {"Err(NumericDataError)"}
+
+
+# ---- folded evaluation of a conversion on concrete character data -------------------------------------------------------
+def fold_engine(config="dflt", unit="scpi"):
+    key = ("fold", config, unit)
+    if key in _C:
+        return _C[key]
+    P = facts.program(config)
+    u = P.unit(unit)
+
+    def inl(n, r):
+        return r.startswith(("scpi::", "scpi_contrib::")) or n.startswith(("scpi::", "scpi_contrib::")) or (r.startswith("<") and ("parser::" in r or "error::" in r or "scpi1999" in r))
+
+    eng = fdai.Engine(P, u, inline=inl, models=M.with_lists(M.FOLD_MODELS), max_paths=64, max_depth=12, loop_limit=64)
+    _C[key] = eng
+    return eng
+
+
+def keyword_probes(keywords):
+    """texts around every keyword: both forms in several letter cases, and near misses (one letter short, one too
+    many, with a numeric suffix, partial long form)"""
+    out = []
+    for kw in keywords:
+        short = kw.rstrip(b"abcdefghijklmnopqrstuvwxyz")
+        forms = [kw, kw.upper(), kw.lower(), short, short.lower(), kw.swapcase(), short[:1] + short[1:].lower()]
+        miss = [short[:-1], kw[:-1] if kw[:-1] != short else kw + b"q", kw + b"x", short + b"x", kw + b"1", short + b"1", short + b"01", b"x" + kw]
+        if len(kw) - len(short) >= 2:
+            miss.append(kw[: len(short) + 1])
+        out.extend(forms + miss)
+    out.extend([b"FOO", b"A", b""])
+    seen = set()
+    res = []
+    for t in out:
+        if t not in seen and len(t) <= 12:
+            seen.add(t)
+            res.append(t)
+    return res
+
+
+def fold_character(eng, body, text):
+    """outcomes of converting Token::CharacterProgramData(text)"""
+    tok = M.token(eng, "CharacterProgramData", [RefV(Cell(fdai.BytesV(bytes(text)), "chars"))])
+    try:
+        return eng.run(body, [tok])
+    except (fdai.TooManyPaths, RecursionError):
+        return None
